@@ -597,27 +597,13 @@ func runC01R9(c *eng.Ctx, r *eng.RuleCtx) {
 	}
 	r.Check(pubs > 0, f.Key+" publishes", f.Decl.Pos(), "eventsEnabled is set to true", "EnableKubeEventCb never sets eventsEnabled: informers of namespaces that appear later stay locked for ever")
 	// static sweep
-	var staticLoop *ast.RangeStmt
-	eng.InspectNoLit(f.Decl.Body, func(n ast.Node) bool {
-		if rs, ok := n.(*ast.RangeStmt); ok && eng.IsField(info, rs.X, resInf) {
-			staticLoop = rs
-		}
-		return true
-	})
-	if staticLoop == nil || staticLoop.Value == nil {
-		r.Bad(f.Key+" static-sweep", f.Decl.Pos(), "no range over ResourceInformers")
+	staticEl, staticOK := elemLoopCalling(g, info, f.Decl.Body, func(x ast.Expr) bool { return eng.IsField(info, x, resInf) }, enable)
+	if staticEl == nil {
+		r.Bad(f.Key+" static-sweep", f.Decl.Pos(), "no loop over ResourceInformers")
 	} else {
-		elem := eng.SelObj(info, staticLoop.Value)
-		ok := loopBodyMustPass(g, staticLoop, func(n *eng.GNode) bool {
-			return len(g.CallsAt(n, func(o types.Object, call *ast.CallExpr) bool {
-				s, isS := ast.Unparen(call.Fun).(*ast.SelectorExpr)
-				return o == enable && isS && eng.SelObj(info, s.X) == elem
-			})) > 0
-		})
-		r.Check(ok && loopNoEarlyExit(g, staticLoop), f.Key+" static-sweep", staticLoop.Pos(), "every static informer is enabled", "an iteration over ResourceInformers can skip enableKubeEventCb")
-		head := g.NodeOf(staticLoop.X)
-		if head != nil {
-			r.Check(g.OnlyVia(head, isPublish, nil), f.Key+" publish-before-static-sweep", staticLoop.Pos(), "flag published before the sweep", "the static sweep can start before eventsEnabled is published")
+		r.Check(staticOK, f.Key+" static-sweep", staticEl.Stmt.Pos(), "every static informer is enabled", "an iteration over ResourceInformers can skip enableKubeEventCb")
+		if head := loopBodyEntryOf(g, staticEl.Stmt); head != nil {
+			r.Check(g.OnlyVia(head, isPublish, nil), f.Key+" publish-before-static-sweep", staticEl.Stmt.Pos(), "flag published before the sweep", "the static sweep can start before eventsEnabled is published")
 		}
 	}
 	// varying sweep
@@ -634,40 +620,11 @@ func runC01R9(c *eng.Ctx, r *eng.RuleCtx) {
 		r.Bad(f.Key+" varying-sweep", f.Decl.Pos(), "VaryingInformers are not swept: informers of dynamically discovered namespaces stay locked")
 	} else {
 		lg := p.GraphOfLit(sweepLit)
-		var loop *ast.RangeStmt
-		eng.InspectNoLit(sweepLit.Lit.Body, func(n ast.Node) bool {
-			if rs, ok := n.(*ast.RangeStmt); ok {
-				loop = rs
-			}
-			return true
-		})
-		ok := false
-		if loop != nil && loop.Value != nil {
-			elem := eng.SelObj(info, loop.Value)
-			prm := eng.SelObj(info, loop.X)
-			isParam := false
-			if sweepLit.Lit.Type.Params != nil {
-				for _, fl := range sweepLit.Lit.Type.Params.List {
-					for _, nm := range fl.Names {
-						if info.Defs[nm] == prm {
-							isParam = true
-						}
-					}
-				}
-			}
-			ok = isParam && loopNoEarlyExit(lg, loop) && loopBodyMustPass(lg, loop, func(n *eng.GNode) bool {
-				return len(lg.CallsAt(n, func(o types.Object, call *ast.CallExpr) bool {
-					s, isS := ast.Unparen(call.Fun).(*ast.SelectorExpr)
-					return o == enable && isS && eng.SelObj(info, s.X) == elem
-				})) > 0
-			})
-			// the loop itself must be reached on every path of the literal
-			if ok {
-				ex := lg.MustPassToExit(eng.Query{FromEntry: true}, func(n *eng.GNode) bool {
-					return n.Node == nil && n.Block.Stmt == ast.Stmt(loop) && n.Block.Kind.String() == "RangeLoop"
-				})
-				ok = ex == nil
-			}
+		el, ok := elemLoopCalling(lg, info, sweepLit.Lit.Body, func(x ast.Expr) bool { return isParamOf(info, sweepLit.Lit, x) }, enable)
+		// the loop itself must be reached on every path of the literal
+		if ok {
+			ex := lg.MustPassToExit(eng.Query{FromEntry: true}, isLoopHeadOf(el.Stmt))
+			ok = ex == nil
 		}
 		r.Check(ok, f.Key+" varying-sweep", sweepLit.Lit.Pos(), "every varying informer is enabled", "the sweep over VaryingInformers does not enable every informer")
 		n := g.NodeOf(sweepLit.ArgOf)
@@ -851,21 +808,40 @@ func runC01R10(c *eng.Ctx, r *eng.RuleCtx) {
 			continue
 		}
 		succ := g.OnlyVia(n, nil, g.FactEdge(fieldEqConst(info, status, "Success", true)))
-		isSync := g.OnlyVia(n, nil, g.FactEdge(func(fc eng.Fact) bool {
-			if !fc.Pos || fc.Y != nil {
+		// the task's Synchronization identity: IsSynchronization() (directly or through a local computed from it) or
+		// a non-empty MonitorIDs list (set only for Synchronization tasks). The unlock is reachable only through a
+		// test one of whose clauses consists of such atoms only.
+		isSyncAtom := func(fc eng.Fact) bool {
+			if fc.Y != nil {
 				return false
 			}
-			if isCallTo(info, fc.X, isSyncM) {
-				return true
+			if fc.Pos {
+				if isCallTo(info, fc.X, isSyncM) {
+					return true
+				}
+				if v, ok := eng.SelObj(info, fc.X).(*types.Var); ok && !v.IsField() {
+					as := eng.AssignedExprs(info, f.Decl, v)
+					if len(as) == 1 && isCallTo(info, as[0], isSyncM) {
+						return true
+					}
+				}
 			}
-			if v, ok := eng.SelObj(info, fc.X).(*types.Var); ok && !v.IsField() {
-				as := eng.AssignedExprs(info, f.Decl, v)
-				if len(as) == 1 && isCallTo(info, as[0], isSyncM) {
+			return nonEmptyLenOf(info, fc, monitorIDs)
+		}
+		isSync := g.OnlyVia(n, nil, func(e *eng.GEdge) bool {
+			for _, cl := range g.EdgeClauses(e) {
+				all := len(cl) > 0
+				for _, a := range cl {
+					if !isSyncAtom(a) {
+						all = false
+					}
+				}
+				if all {
 					return true
 				}
 			}
 			return false
-		}))
+		})
 		el := elemLoopAt(info, f.Decl.Body, s.Call.Pos())
 		loopOK := el != nil && eng.IsField(info, el.Base, monitorIDs) && len(s.Call.Args) == 1 && el.IsElem(s.Call.Args[0])
 		if loopOK {
@@ -903,8 +879,121 @@ func runC01R10(c *eng.Ctx, r *eng.RuleCtx) {
 	r.Check(late == "", final+" sync-decision-before-combine", latePos, "IsSynchronization() is evaluated only before the binding contexts are replaced by the combined ones",
 		"IsSynchronization() is evaluated after hookMeta.BindingContext was replaced by the combined/compacted contexts ("+late+"): when the Synchronization context was compacted away the task no longer looks like a Synchronization, the unlock is skipped and the monitor stays locked for ever")
 
-	// the combined task carries the monitor ids of all merged tasks
+	// retry stability of the unlock decision: a failed run leaves the task in the queue with the metadata written back
+	// by UpdateMetadata (combined BindingContext, MonitorIDs); the retry takes the decision again from that metadata.
+	// The decision must have an alternative that the write-back cannot turn from true to false, and that alternative
+	// must hold for every Synchronization task when it is created.
 	combMon := p.Field(pkgOp, "CombineResult", "MonitorIDs")
+	written := map[*types.Var][]*eng.GNode{}
+	if st, ok := p.Named(pkgMeta, "HookMetadata").Underlying().(*types.Struct); ok {
+		for i := 0; i < st.NumFields(); i++ {
+			fld := st.Field(i)
+			for _, n := range g.Nodes {
+				if as, isA := n.Node.(*ast.AssignStmt); isA {
+					for _, l := range as.Lhs {
+						if eng.IsField(info, l, fld) {
+							written[fld] = append(written[fld], n)
+						}
+					}
+				}
+			}
+		}
+	}
+	// fields read by IsSynchronization()
+	syncReads := map[*types.Var]bool{}
+	if mf := p.FuncOf(isSyncM); mf != nil && mf.Decl.Body != nil {
+		ast.Inspect(mf.Decl.Body, func(n ast.Node) bool {
+			if sel, ok := n.(*ast.SelectorExpr); ok {
+				if v, isV := mf.Pkg.TypesInfo.Uses[sel.Sel].(*types.Var); isV && v.IsField() {
+					syncReads[v] = true
+				}
+			}
+			return true
+		})
+	}
+	syncStable := len(syncReads) > 0
+	for fld := range syncReads {
+		if len(written[fld]) > 0 {
+			syncStable = false
+		}
+	}
+	// len(MonitorIDs) > 0 is stable when every store to the field is taken only with a non-empty right-hand side
+	monStable := true
+	for _, n := range written[monitorIDs] {
+		as := n.Node.(*ast.AssignStmt)
+		okStore := false
+		if len(as.Lhs) == 1 && len(as.Rhs) == 1 && eng.IsField(info, as.Rhs[0], combMon) {
+			okStore = g.OnlyVia(n, nil, g.FactEdge(func(fc eng.Fact) bool { return nonEmptyLenOf(info, fc, combMon) }))
+		}
+		if !okStore {
+			monStable = false
+		}
+	}
+	for _, s := range finalSites {
+		n := g.NodeOf(s.Call)
+		if n == nil || s.InLit != nil {
+			continue
+		}
+		stable := false
+		// look at every test edge that dominates the unlock: one of its all-identity clauses must contain a stable atom
+		for _, m := range g.Nodes {
+			for _, e := range m.Succ {
+				if e.Cond == nil || !reachFromEdge(g, e)[n] {
+					continue
+				}
+				for _, cl := range g.EdgeClauses(e) {
+					for _, a := range cl {
+						if nonEmptyLenOf(info, a, monitorIDs) && monStable {
+							stable = true
+						}
+						if a.Pos && a.Y == nil && syncStable {
+							if isCallTo(info, a.X, isSyncM) {
+								stable = true
+							}
+							if v, ok := eng.SelObj(info, a.X).(*types.Var); ok && !v.IsField() {
+								if as := eng.AssignedExprs(info, f.Decl, v); len(as) == 1 && isCallTo(info, as[0], isSyncM) {
+									stable = true
+								}
+							}
+						}
+					}
+				}
+			}
+		}
+		r.Check(stable, final+" unlock-decision-survives-retry", s.Call.Pos(),
+			"the unlock decision has an alternative that the metadata write-back cannot falsify (MonitorIDs stay non-empty)",
+			"the unlock is decided only from task metadata that the function overwrites before UpdateMetadata (IsSynchronization() reads BindingContext, which is replaced by the combined and compacted contexts): when the run fails and the task is retried, a Synchronization whose context was compacted away no longer looks like one, its monitors are never unlocked and every later event of the binding is lost")
+	}
+	// every Synchronization task is created with its monitor id
+	if ef := p.Func(pkgOp + ".(*ShellOperator).taskHandleEnableKubernetesBindings"); ef == nil {
+		r.Unknown("anchor:taskHandleEnableKubernetesBindings", token.NoPos, "function not found")
+	} else {
+		c.Touch(ef)
+		einfo := ef.Pkg.TypesInfo
+		hmT := p.Named(pkgMeta, "HookMetadata")
+		nlit, okLit := 0, true
+		var lpos token.Pos = ef.Decl.Pos()
+		ast.Inspect(ef.Decl.Body, func(n ast.Node) bool {
+			cl, isC := n.(*ast.CompositeLit)
+			if !isC {
+				return true
+			}
+			if tv, has := einfo.Types[cl]; !has || hmT == nil || !types.Identical(tv.Type, hmT) {
+				return true
+			}
+			nlit++
+			lpos = cl.Pos()
+			v := litKeyValue(einfo, cl, monitorIDs)
+			inner, isL := ast.Unparen(v).(*ast.CompositeLit)
+			if v == nil || !isL || len(inner.Elts) == 0 {
+				okLit = false
+			}
+			return true
+		})
+		r.Check(nlit > 0 && okLit, ef.Key+" Synchronization tasks carry MonitorIDs", lpos, "every Synchronization task is created with a non-empty MonitorIDs list", "a Synchronization task is created without its monitor id: nothing identifies the monitors to unlock after its (possibly retried) run")
+	}
+
+	// the combined task carries the monitor ids of all merged tasks
 	okFlow := false
 	var pos token.Pos = f.Decl.Pos()
 	eng.InspectNoLit(f.Decl.Body, func(n ast.Node) bool {
@@ -1170,4 +1259,38 @@ func hweEventNode(p *eng.Prog, hwe *eng.Func) (*eng.GNode, types.Object) {
 		}
 	}
 	return nil, nil
+}
+
+// nonEmptyLenOf: the fact states len(<field fld>) > 0 (or != 0, or >= 1).
+func nonEmptyLenOf(info *types.Info, fc eng.Fact, fld *types.Var) bool {
+	if fc.Y != nil {
+		return false
+	}
+	b, ok := ast.Unparen(fc.X).(*ast.BinaryExpr)
+	if !ok {
+		return false
+	}
+	lenOf := func(e ast.Expr) bool {
+		cl := builtinCall(info, e, "len")
+		return cl != nil && len(cl.Args) == 1 && eng.IsField(info, cl.Args[0], fld)
+	}
+	k, isK := eng.ConstInt(info, b.Y)
+	if !lenOf(b.X) || !isK {
+		return false
+	}
+	switch b.Op {
+	case token.GTR: // len > 0
+		return fc.Pos && k == 0
+	case token.NEQ: // len != 0
+		return fc.Pos && k == 0
+	case token.GEQ: // len >= 1
+		return fc.Pos && k == 1
+	case token.EQL: // !(len == 0)
+		return !fc.Pos && k == 0
+	case token.LEQ: // !(len <= 0)
+		return !fc.Pos && k == 0
+	case token.LSS: // !(len < 1)
+		return !fc.Pos && k == 1
+	}
+	return false
 }
